@@ -1593,10 +1593,12 @@ theorem save_then_truncated_reload_subset {H : Bytes → Bytes} (hH : ∀ x, (H 
 
 /-! ## the regenerated facts the models rely on -/
 
+set_option maxRecDepth 100000 in
 /-- `elementSizeMem` of the model agrees with the compiled Go function on the sampled lengths (regenerated on every run) -/
 theorem gen_elementSizeMem_samples :
     ∀ p ∈ SH.Gen.C21.elementSizeMemSamples, elementSize (List.replicate p.1 0) = (p.2 : Int) := by decide
 
+set_option maxRecDepth 100000 in
 /-- `tlString` has the length of `basictl.StringWrite` on the sampled lengths (tiny / medium boundary, padding) -/
 theorem gen_tlString_samples :
     ∀ p ∈ SH.Gen.C21.tlStringLenSamples, (tlString (List.replicate p.1 0)).length = p.2 := by decide
